@@ -28,12 +28,5 @@ Set Default Timeout 120.
 Lemma go_Read3Size_nvar_tie a b c : 0 <= a < 256 -> 0 <= b < 256 -> 0 <= c < 256 ->
   go_Read3Size [a; b; c] = le_dec [a; b; c].
 Proof.
-  intros Ha Hb Hc. unfold go_Read3Size. cbn [nth le_dec].
-  rewrite !(wrap_small 64) by lia.
-  unfold go_shl. rewrite !Z.shiftl_mul_pow2 by lia.
-  rewrite !(wrap_small 64) by lia.
-  rewrite <- (Z.shiftl_mul_pow2 c 16) by lia.
-  rewrite (lor_shiftl_add c (b * 2 ^ 8) 16) by lia.
-  replace (c * 2 ^ 16 + b * 2 ^ 8) with (Z.shiftl (c * 2 ^ 8 + b) 8) by (rewrite Z.shiftl_mul_pow2; lia).
-  rewrite lor_shiftl_add by lia. lia.
+  intros Ha Hb Hc. unfold go_Read3Size. cbn [nth le_dec]. go_arith.
 Qed.
